@@ -34,6 +34,17 @@ def one(name):
     d = os.path.join("seeded", name)
     prop = name.split("-")[0]
     t0 = time.time()
+    if os.path.exists(os.path.join(d, "MOOT.txt")):
+        # the code this change targeted was rewritten by a later repair: the same change can no
+        # longer be made (or no longer has an observable effect); kept for the record, not swept
+        try:
+            meta = json.load(open(os.path.join(d, "meta.json")))
+        except Exception:
+            meta = {"property": prop, "name": name}
+        meta["moot_since"] = open(os.path.join(d, "MOOT.txt")).read()[:1500]
+        json.dump(meta, open(os.path.join(d, "meta.json"), "w"), indent=1)
+        print(name, "MOOT", flush=True)
+        return (name, prop, None, None, "moot: " + meta["moot_since"].split("\n")[0][:100], 0)
     v = subprocess.run(["tools/seedverify.sh", prop, "/verif/" + d], capture_output=True, text=True).stdout
     m = re.search(r"RESULT \S+ suite_with_patch_exit=(\d+) demo_with_patch_exit=(\d+) demo_without_exit=(\d+) dest=(\S+)", v)
     confirmed = bool(m) and m.group(1) == "0" and m.group(2) != "0" and m.group(3) == "0"
@@ -82,4 +93,7 @@ if not only:
     with open("seeded/RESULTS.md", "w") as f:
         f.write("| seeded change | property | confirmed (suite passes, demo fails with / passes without) | caught by quick check | first signature |\n|---|---|---|---|---|\n")
         for n, p, c, k, s, _ in rows:
+            if c is None:
+                f.write(f"| {n} | {p} | moot (see MOOT.txt) | - | `{s[:110]}` |\n")
+                continue
             f.write(f"| {n} | {p} | {'yes' if c else 'NO'} | {'yes' if k else 'NO'} | `{s[:110]}` |\n")
